@@ -118,6 +118,17 @@ let run_leaf toks =
        | None -> "fuel"
        | Some l -> let n = List.length l in
          String.concat "" (List.mapi (fun i sg -> if i < 40 then pr sg.s_low ^ " " ^ pr sg.s_high ^ " " ^ pr sg.s_bytes ^ " | " else "") l) ^ "n=" ^ string_of_int n)
+  | ["xoff"; size; l1; prime; mi; wi] ->
+      (* the model of EratSmall::crossOff for one sieving prime on an all-ones sieve: bytes that change, then the stored state *)
+      let sz = Zr.to_int (z size) in
+      (match cross_small (nat_of_int (sz + 2)) (nat_of_int (2 * sz + 10)) (z l1) (z size) Zr.zero (Zr.div (z prime) (Zr.of_int 30)) (z mi) (z wi) with
+       | None -> "fuel"
+       | Some ((cl, i), w) ->
+         let tbl = Hashtbl.create 64 in
+         List.iter (fun (b, m) -> let k = Zr.to_int b in
+                      let old = try Hashtbl.find tbl k with Not_found -> 255 in Hashtbl.replace tbl k (old land (Zr.to_int m))) cl;
+         let keys = List.sort compare (Hashtbl.fold (fun k _ acc -> k :: acc) tbl []) in
+         String.concat "" (List.map (fun k -> string_of_int k ^ ":" ^ string_of_int (Hashtbl.find tbl k) ^ " ") keys) ^ "| " ^ pr i ^ " " ^ pr w)
   | ["gss"; user; l1; l2; l3; s1; s2; s3] -> pr (get_sieve_size (z user) { c_l1 = z l1; c_l2 = z l2; c_l3 = z l3; c_l1s = z s1; c_l2s = z s2; c_l3s = z s3 })
   | ["nbuf"; pcu; a; b] -> let (c, s) = next_buffer (z pcu) (z a) (z b) in pr c ^ " " ^ pr s
   | ["is_prime"; x] -> if is_prime (z x) then "1" else "0"
